@@ -1,6 +1,13 @@
 package main
 
 import (
+	"encoding/json"
+	"path/filepath"
+
+	"verif.local/lab/pipeline"
+	"verif.local/lab/spec"
+	"verif.local/lab/vc"
+
 	"verif.local/lab/cases"
 	"verif.local/lab/oracle"
 	"verif.local/lab/rt"
@@ -81,5 +88,73 @@ func checkC08() *rtCheck {
 		Profiles: []string{"views"}, Specs: [2]int{24, 300}, PerMethod: [2]int{0, 0},
 		MkCases: cases.Views, Judge: oracle.C08, Floor: [2]int{60, 2000},
 		NonTrivial: func(ex *rt.Exchange) bool { return ex.StubIn != nil },
+	}
+}
+
+type c07Witness struct {
+	Spec    *spec.Spec             `json:"spec"`
+	DSL     string                 `json:"dsl"`
+	Mounted map[string][][2]string `json:"mounted"`
+}
+
+func checkC07() *rtCheck {
+	return &rtCheck{
+		Prop: "C07",
+		Rule: "specs from the openapi profile (multiple routes, API/service base paths, file servers, openapi:* meta, security) plus http-loc/errors/security; per accepted+compiled design: the four generated documents are validated (OpenAPI 3: kin-openapi loader+Validate; OpenAPI 2: unmarshal + conversion + the lab's structural Swagger rules), JSON and YAML renderings compared as data, and the documented operations/parameters/bodies/status codes compared with the (verb, pattern) pairs the generated Mount registers on a recording Muxer and with the spec. non-trivial = design whose documents were checked; distinct = feature signature",
+		Assume: []string{"a credential mapped to a header/query attribute may be documented as a parameter, through the security scheme, or both",
+			"HEAD twins of file servers are not design operations", "OpenAPI 2 cannot express cookie parameters"},
+		Profiles: []string{"openapi", "openapi", "http-loc", "errors", "security", "mixed"}, Specs: [2]int{32, 600}, PerMethod: [2]int{0, 0},
+		MkCases:    func(sp *spec.Spec, sv *spec.Service, m *spec.Method, r *vc.Rand, n, start int) []*rt.Case { return nil },
+		Judge:      func(sp *spec.Spec, ex *rt.Exchange) *oracle.Verdict { return &oracle.Verdict{Inconclusive: "n/a"} },
+		Floor:      [2]int{10, 150},
+		AllowFiles: true,
+		PostDesign: func(run *vc.Run, d *pipeline.Design, setup map[string]any) {
+			mounted := map[string][][2]string{}
+			if b, err := json.Marshal(setup["mounted"]); err == nil {
+				_ = json.Unmarshal(b, &mounted)
+			}
+			v := oracle.C07(d.Spec, filepath.Join(d.Dir, "gen"), mounted)
+			run.Eval(1)
+			nops := 0
+			for _, ps := range mounted {
+				nops += len(ps)
+			}
+			run.Count("operations_mounted", nops)
+			run.Count("documents_checked", 4)
+			if v.Inconclusive != "" {
+				run.Inconclusive(v.Inconclusive)
+				return
+			}
+			for _, f := range v.Findings {
+				run.Violation(f.Key, f.What, c07Witness{Spec: d.Spec, DSL: d.DSL, Mounted: mounted})
+			}
+			if len(v.Findings) == 0 {
+				run.Distinct(d.Spec.Signature())
+				run.Sample(map[string]any{"features": d.Spec.Features, "mounted": mounted})
+			}
+		},
+	}
+}
+
+func checkC14() *rtCheck {
+	return &rtCheck{
+		Prop: "C14",
+		Rule: "the boundary probes of C04 (valid and invalid requests through the generated client and hand-encoded, malformed encodings) plus declared errors of C05 are exchanged with the generated server; every exact wire request is also judged by kin-openapi's openapi3filter against the operation of the generated openapi3.json; the two decisions must agree; success and declared-error responses must conform to the documented response of their status. non-trivial = exchange judged by both sides; distinct = (feature signature, method, probe class, shape)",
+		Assume: []string{"the schema evaluator is kin-openapi openapi3filter (independent of goa); the lab's own evaluator planned in DESIGN is not built: disagreements are therefore decided by one independent judge",
+			"numeric exclusive bounds (a listed C07 finding) are rewritten into the OpenAPI 3.0 form before loading so that the rest of the document can be judged",
+			"JSON bodies only; authorization is not a schema matter"},
+		Profiles: validationProfiles, Specs: [2]int{32, 500}, PerMethod: [2]int{30, 140},
+		MkCases: func(sp *spec.Spec, sv *spec.Service, m *spec.Method, r *vc.Rand, n, start int) []*rt.Case {
+			cs := cases.Validation(sp, sv, m, r, n, start)
+			for _, e := range cases.Errors(sp, sv, m, r.Fork(77), 0, start+len(cs)) {
+				if len(e.Class) >= 9 && e.Class[:9] == "declared:" {
+					e.ID = start + len(cs)
+					cs = append(cs, e)
+				}
+			}
+			return cs
+		},
+		Judge: oracle.C14, Floor: [2]int{300, 8000},
+		NonTrivial: func(ex *rt.Exchange) bool { return ex.WireResp != nil },
 	}
 }
